@@ -402,6 +402,8 @@ def run_all(tier='quick', seed=0):
 
 def replay_input(inp):
     """True iff the property HOLDS on this input (used by --replay)"""
+    if 'fn' not in inp and isinstance(inp.get('input'), dict):     # a failure record of the bounded stand-in: {what, input, signature}
+        inp = inp['input']
     fn = inp.get('fn', 'metropolis')
     if fn == 'metropolis':
         return check_metropolis_case(inp) is None and check_contract_case(inp) is None
